@@ -118,6 +118,14 @@ def _x0(pos, lb, ub):
             x[i] = l - 1.5 if fl else mid - 1.5
         elif pos == "above":
             x[i] = u + 1.5 if fu else mid + 1.5
+        elif pos == "nearlower":      # within one initial radius of the lower bound, not on it
+            x[i] = l + 0.75 if fl else mid
+            if fu:
+                x[i] = min(x[i], u)
+        elif pos == "nearupper":
+            x[i] = u - 0.375 if fu else mid
+            if fl:
+                x[i] = max(x[i], l)
         elif pos == "zero":
             x[i] = 0.0
             if fl:
